@@ -189,13 +189,15 @@ class Tree:
                 self.moved.append(f"{k} -> {best} ({score:.2f})")
 
     def _normalise_bodies(self):
-        from .normalise import inline_aliases, loops_to_comprehensions, positive_ifexps, unroll_literal_loops, updates_to_loops, inline_single_use_temps, forward_attr_stores, searches_to_loops, genexp_loops, split_webs, ifexp_to_if, default_none_gets, while_true_breaks
+        from .normalise import inline_aliases, loops_to_comprehensions, positive_ifexps, unroll_literal_loops, updates_to_loops, inline_single_use_temps, forward_attr_stores, searches_to_loops, genexp_loops, split_webs, ifexp_to_if, default_none_gets, while_true_breaks, integer_attributes, explicit_to_augmented
 
         self.normalised: List[str] = []
+        int_attrs = integer_attributes([m.tree for m in self.modules.values() if not m.is_test()])
         for f in list(self.funcs.values()):
             if f.module.is_test():
                 continue
             default_none_gets(f.node)
+            explicit_to_augmented(f.node, int_attrs)
             while_true_breaks(f.node)
             positive_ifexps(f.node)
             inline_single_use_temps(f.node)
